@@ -577,16 +577,17 @@ pub async fn client_conn_task(ctx: Ctx, mut conn: client::Connection<PipeEnd, By
                         dropped = true;
                         return Poll::Ready(Ok(()));
                     }
+                    ConnOpKind::Nop => hooks.force_next(),
                     _ => {}
                 },
             }
         }
         ctl.borrow_mut().waker = Some(cx.waker().clone());
         sim::log(ctx.conn, EvK::ConnPoll { side: ctx.side, begin: true });
-        hooks.before(&conn.verif_snapshot());
+        if hooks.want() { hooks.before(&conn.verif_snapshot()); }
         let r = Pin::new(&mut conn).poll(cx);
         sim::log(ctx.conn, EvK::ConnPoll { side: ctx.side, begin: false });
-        hooks.after(&conn.verif_snapshot());
+        if hooks.want() { hooks.after(&conn.verif_snapshot()); }
         r
     })
     .await;
@@ -618,10 +619,47 @@ async fn client_pushed_stream(ctx: Ctx, spec: Option<PushSpec>, idx: u32, fut: c
     }
 }
 
-async fn client_push_listener(ctx: Ctx, parent: StreamSpec, mut pushes: client::PushPromises) {
+/// Lets the response task tell the promise listener that the application has abandoned the
+/// stream (a client that stops reading the response also stops listening for promises).
+#[derive(Default)]
+pub struct StopFlag {
+    pub stop: bool,
+    pub waker: Option<Waker>,
+}
+
+fn raise_stop(f: &Rc<RefCell<StopFlag>>) {
+    let w = {
+        let mut b = f.borrow_mut();
+        b.stop = true;
+        b.waker.take()
+    };
+    if let Some(w) = w {
+        w.wake();
+    }
+}
+
+async fn client_push_listener(ctx: Ctx, parent: StreamSpec, mut pushes: client::PushPromises, stop: Rc<RefCell<StopFlag>>) {
     loop {
         let id = call(&ctx, Op::PushPromise, parent.idx, 0, 0, 0, false, None);
-        let r = poll_fn(|cx| pushes.poll_push_promise(cx)).await;
+        let r = poll_fn(|cx| {
+            {
+                let mut b = stop.borrow_mut();
+                if b.stop {
+                    return Poll::Ready(None);
+                }
+                b.waker = Some(cx.waker().clone());
+            }
+            pushes.poll_push_promise(cx).map(Some)
+        })
+        .await;
+        let r = match r {
+            Some(r) => r,
+            None => {
+                // abandoned by the application: drop the handle
+                ret(&ctx, Op::PushPromise, id, parent.idx, 0, 0, 1, false, Res::End, None);
+                break;
+            }
+        };
         match r {
             Some(Ok(pp)) => {
                 let (req, fut) = pp.into_parts();
@@ -646,15 +684,17 @@ async fn client_push_listener(ctx: Ctx, parent: StreamSpec, mut pushes: client::
 async fn client_response(ctx: Ctx, spec: StreamSpec, mut fut: client::ResponseFuture) {
     let idx = spec.idx;
     let sid = fut.stream_id().as_u32();
+    let stop: Rc<RefCell<StopFlag>> = Default::default();
     if spec.client_polls_push {
         let pushes = fut.push_promises();
-        sim::spawn(format!("client-pushes-{}", idx), TaskKind::App, client_push_listener(ctx.clone(), spec.clone(), pushes));
+        sim::spawn(format!("client-pushes-{}", idx), TaskKind::App, client_push_listener(ctx.clone(), spec.clone(), pushes, stop.clone()));
     }
     if let Some(n) = spec.client_cancel_after {
         yield_n(n).await;
         let id = call(&ctx, Op::DropResponseFuture, idx, sid, 0, 0, false, None);
         drop(fut);
         ret(&ctx, Op::DropResponseFuture, id, idx, sid, 0, 0, false, Res::Ok, None);
+        raise_stop(&stop);
         return;
     }
     if spec.client_polls_info {
@@ -684,10 +724,15 @@ async fn client_response(ctx: Ctx, spec: StreamSpec, mut fut: client::ResponseFu
             let m = msg_of_response(&resp);
             ret(&ctx, Op::Response, id, idx, sid, 0, 0, false, Res::Ok, Some(m));
             drop(fut);
-            read_body(ctx, idx, idx * 2 + 1, resp.into_body(), spec.resp_read.clone()).await;
+            let clean = read_body(ctx, idx, idx * 2 + 1, resp.into_body(), spec.resp_read.clone()).await;
+            if !clean {
+                // the response was abandoned or failed: stop listening for promises as well
+                raise_stop(&stop);
+            }
         }
         Err(e) => {
             ret(&ctx, Op::Response, id, idx, sid, 0, 0, false, Res::Err(Box::new(ErrInfo::from(&e))), None);
+            raise_stop(&stop);
         }
     }
 }
@@ -919,14 +964,14 @@ pub async fn server_main(ctx: Ctx, io: PipeEnd, cfg: EpCfg, specs: Vec<StreamSpe
                         dropped = true;
                         return Poll::Ready(Ok(()));
                     }
-                    ConnOpKind::Nop => {}
+                    ConnOpKind::Nop => hooks.force_next(),
                 },
             }
         }
         ctl.borrow_mut().waker = Some(cx.waker().clone());
         loop {
             sim::log(ctx.conn, EvK::ConnPoll { side: ctx.side, begin: true });
-            hooks.before(&conn.verif_snapshot());
+            if hooks.want() { hooks.before(&conn.verif_snapshot()); }
             let stop_accepting = accept_limit.map(|l| accepted >= l).unwrap_or(false);
             let r = if stop_accepting {
                 conn.poll_closed(cx).map(|r| match r {
@@ -937,7 +982,7 @@ pub async fn server_main(ctx: Ctx, io: PipeEnd, cfg: EpCfg, specs: Vec<StreamSpe
                 conn.poll_accept(cx)
             };
             sim::log(ctx.conn, EvK::ConnPoll { side: ctx.side, begin: false });
-            hooks.after(&conn.verif_snapshot());
+            if hooks.want() { hooks.after(&conn.verif_snapshot()); }
             match r {
                 Poll::Pending => return Poll::Pending,
                 Poll::Ready(None) => {
